@@ -6,3 +6,4 @@ from . import package  # noqa: F401
 from . import typemap  # noqa: F401
 from . import naming  # noqa: F401
 from . import schemagen  # noqa: F401
+from . import plugins_ops  # noqa: F401
